@@ -215,6 +215,8 @@ class Shaper:
 # ---------------------------------------------------------------------------------------------
 # checklist obligations: "at every exit of this kind, these checks were executed and passed"
 def _outcome_holds(p, e, conj, outcome):
+    if outcome is None:
+        return True          # the call merely has to be on the path (void producers)
     if e.res is None:
         return False
     z = p.facts.zeroness(e.res)
@@ -234,11 +236,13 @@ def _outcome_holds(p, e, conj, outcome):
     return False
 
 
-def find_checks(p, conj, checks, binding=None, start=0):
+def find_checks(p, conj, checks, binding=None, start=0, _nodiag=False):
     """checks: [(callee source name, outcome, {arg index: ('param', i) | ('var', name)})].
     Returns a binding dict {var: root} under which every check has a matching passed call on the
     path (in any order), or None. Also returns the index of the first missing check."""
     binding = dict(binding or {})
+
+    matched = []
 
     def rec(k, b):
         if k == len(checks):
@@ -269,14 +273,22 @@ def find_checks(p, conj, checks, binding=None, start=0):
                 continue
             res = rec(k + 1, b2)
             if res is not None:
+                matched.append(e)
                 return res
         return None
 
     full = rec(0, binding)
     if full is not None:
+        full = dict(full)
+        full["__events__"] = list(reversed(matched))
         return full, None
-    # diagnose: first check that cannot be matched on its own
-    for k, (name, outcome, argc) in enumerate(checks):
+    # diagnose: the check whose removal makes the remaining list satisfiable
+    if len(checks) > 1 and not _nodiag:
+        for k in range(len(checks)):
+            rest = checks[:k] + checks[k + 1:]
+            if find_checks(p, conj, rest, binding, _nodiag=True)[0] is not None:
+                return None, k
+    for k in range(len(checks)):
         if rec_single(p, conj, checks[k]) is None:
             return None, k
     return None, 0
